@@ -31,60 +31,323 @@
  * One (bs, tdb) pair per unit: the divisions/products are by literals (symbolic divisors do not terminate).
  */
 /* VERIF-UNIT
-{"name": "undo_write_tdb_aligned", "defines": ["NO_INLINE_FUNCS", "CFG_BS=4096", "CFG_TDB=32768", "ALIGNED_ONLY=1"],
- "props": ["C12"], "level": "U", "tier": "wip", "harness": "h_write_tdb",
- "enforce": ["undo_write_tdb"], "replace": ["undo_setup_tdb", "write_undo_indexes"], "loop_contracts": true,
- "unwind": 24, "unwind_reason": "only DFCC library loops over the 18 assigns-clause targets are unwound; the function's own loop is closed by its in-place loop contract",
- "functions": ["lib/ext2fs/undo_io.c:undo_write_tdb"],
- "assumes": ["channel block size 4096, tdb_data_size 32768 (mke2fs -z on a 4k filesystem); filesystem offset a multiple of tdb_data_size, 0 <= offset <= 2^60",
-   "bit numbering origin UNDO_ORIGIN = offset/tdb (specs/undo_spec.h)",
-   "undo file already set up by an earlier call (tdb_written == 1, key block allocated, not full): undo_setup_tdb replaced by a contract that says so",
-   "request byte count in [1, INT_MAX], block <= 2^44",
-   "bits of undo blocks other than t* are arbitrary (over-approximated); crc32c is an uninterpreted function observed by the monitor; host is little-endian",
-   "write_undo_indexes behaves as its contract says (flushes the key block, keeps keys_in_block < keys per block on success)",
-   "a short read reports 0 <= actual_size < tdb through the read_error handler as unix_io does",
-   "the exact key description (fsblk*bs + size == end of the saved bytes, crc chain) is demanded when the key block's last key was well formed at the time of the read (size a multiple of the channel block size i.e. no short read went into it, <= 512 undo blocks, fsblk < 2^48); after a short read only data beyond the original end of the device can follow"],
- "backend": "cadical", "native": false, "timeout": 300
+{
+ "name": "undo_write_tdb_aligned",
+ "defines": [
+  "NO_INLINE_FUNCS",
+  "CFG_BS=1024",
+  "CFG_TDB=1024",
+  "ALIGNED_ONLY=1"
+ ],
+ "props": [
+  "C12"
+ ],
+ "level": "U",
+ "tier": "wip",
+ "harness": "h_write_tdb",
+ "enforce": [
+  "undo_write_tdb"
+ ],
+ "replace": [
+  "undo_setup_tdb",
+  "write_undo_indexes"
+ ],
+ "loop_contracts": true,
+ "unwind": 24,
+ "unwind_reason": "only DFCC library loops over the 18 assigns-clause targets are unwound; the function's own loop is closed by its in-place loop contract (named anchor VERIF_INV_UNDO_WRITE_TDB_LOOP)",
+ "functions": [
+  "lib/ext2fs/undo_io.c:undo_write_tdb"
+ ],
+ "assumes": [
+  "channel block size 1024, tdb_data_size 1024 (tune2fs/e2fsck/resize2fs/debugfs on a 1k filesystem); filesystem offset a multiple of tdb_data_size, 0 <= offset <= 2^60",
+  "bit numbering origin UNDO_ORIGIN = offset/tdb (the pinned tree) (specs/undo_spec.h)",
+  "undo file already set up by an earlier call (tdb_written == 1, key block allocated, not full): undo_setup_tdb replaced by a contract that says so",
+  "request byte count in [1, INT_MAX], block <= 2^44",
+  "bits of undo blocks other than t* are arbitrary (over-approximated); crc32c is an uninterpreted function observed by the monitor; host is little-endian",
+  "write_undo_indexes behaves as its contract says (writes the key block, keeps keys_in_block < keys per block on success, reports failure by a non-zero return)",
+  "a short read reports 0 <= actual_size < tdb through the read_error handler as unix_io does",
+  "the exact key description (fsblk*bs + size == end of the saved bytes, crc chain) is demanded when the key block's last key was well formed at the time of the read (size a nonzero multiple of the channel block size i.e. no short read went into it, <= 512 undo blocks, fsblk < 2^48); after a short read only data beyond the original end of the device can follow",
+  "NO_INLINE_FUNCS: ext2fs_get_mem, free, bitmap test/mark are unit stubs; the block buffer is served from a one-slot pool because DFCC forbids malloc/free inside a contracted loop (allocation may fail; on failure the stub stores NULL); memset is the CBMC library model",
+  "larger undo blocks (4096, 32768) are not run: every key access at a symbolic slot costs clauses linear in tdb (27M clauses at 4096, out of memory at 32768); the arithmetic of undo_write_tdb only depends on bs, tdb/bs and offset%tdb"
+ ],
+ "backend": "cadical",
+ "native": false,
+ "timeout": 600
 }
 */
 /* VERIF-UNIT
-{"name": "undo_write_tdb_aligned_1k_1k", "defines": ["NO_INLINE_FUNCS", "CFG_BS=1024", "CFG_TDB=1024", "ALIGNED_ONLY=1"],
- "props": ["C12"], "level": "U", "tier": "wip", "harness": "h_write_tdb",
- "enforce": ["undo_write_tdb"], "replace": ["undo_setup_tdb", "write_undo_indexes"], "loop_contracts": true,
- "unwind": 24, "unwind_reason": "only DFCC library loops over the 18 assigns-clause targets are unwound; the function's own loop is closed by its in-place loop contract",
- "functions": ["lib/ext2fs/undo_io.c:undo_write_tdb"],
- "assumes": ["as undo_write_tdb_aligned, with channel block size 1024 and tdb_data_size 1024 (tune2fs/e2fsck/resize2fs/debugfs on a 1k filesystem)"],
- "backend": "cadical", "native": false, "timeout": 300
+{
+ "name": "undo_write_tdb_aligned_1k_2k",
+ "defines": [
+  "NO_INLINE_FUNCS",
+  "CFG_BS=1024",
+  "CFG_TDB=2048",
+  "ALIGNED_ONLY=1"
+ ],
+ "props": [
+  "C12"
+ ],
+ "level": "U",
+ "tier": "wip",
+ "harness": "h_write_tdb",
+ "enforce": [
+  "undo_write_tdb"
+ ],
+ "replace": [
+  "undo_setup_tdb",
+  "write_undo_indexes"
+ ],
+ "loop_contracts": true,
+ "unwind": 24,
+ "unwind_reason": "only DFCC library loops over the 18 assigns-clause targets are unwound; the function's own loop is closed by its in-place loop contract (named anchor VERIF_INV_UNDO_WRITE_TDB_LOOP)",
+ "functions": [
+  "lib/ext2fs/undo_io.c:undo_write_tdb"
+ ],
+ "assumes": [
+  "channel block size 1024, tdb_data_size 2048 (undo block larger than the channel block, as mke2fs' 32768/4096 or 32768/1024; reachable through the tdb_data_size option); filesystem offset a multiple of tdb_data_size, 0 <= offset <= 2^60",
+  "bit numbering origin UNDO_ORIGIN = offset/tdb (the pinned tree) (specs/undo_spec.h)",
+  "undo file already set up by an earlier call (tdb_written == 1, key block allocated, not full): undo_setup_tdb replaced by a contract that says so",
+  "request byte count in [1, INT_MAX], block <= 2^44",
+  "bits of undo blocks other than t* are arbitrary (over-approximated); crc32c is an uninterpreted function observed by the monitor; host is little-endian",
+  "write_undo_indexes behaves as its contract says (writes the key block, keeps keys_in_block < keys per block on success, reports failure by a non-zero return)",
+  "a short read reports 0 <= actual_size < tdb through the read_error handler as unix_io does",
+  "the exact key description (fsblk*bs + size == end of the saved bytes, crc chain) is demanded when the key block's last key was well formed at the time of the read (size a nonzero multiple of the channel block size i.e. no short read went into it, <= 512 undo blocks, fsblk < 2^48); after a short read only data beyond the original end of the device can follow",
+  "NO_INLINE_FUNCS: ext2fs_get_mem, free, bitmap test/mark are unit stubs; the block buffer is served from a one-slot pool because DFCC forbids malloc/free inside a contracted loop (allocation may fail; on failure the stub stores NULL); memset is the CBMC library model",
+  "larger undo blocks (4096, 32768) are not run: every key access at a symbolic slot costs clauses linear in tdb (27M clauses at 4096, out of memory at 32768); the arithmetic of undo_write_tdb only depends on bs, tdb/bs and offset%tdb"
+ ],
+ "backend": "cadical",
+ "native": false,
+ "timeout": 600
 }
 */
 /* VERIF-UNIT
-{"name": "undo_write_tdb_aligned_1k_4k", "defines": ["NO_INLINE_FUNCS", "CFG_BS=1024", "CFG_TDB=4096", "ALIGNED_ONLY=1"],
- "props": ["C12"], "level": "U", "tier": "wip", "harness": "h_write_tdb",
- "enforce": ["undo_write_tdb"], "replace": ["undo_setup_tdb", "write_undo_indexes"], "loop_contracts": true,
- "unwind": 24, "unwind_reason": "only DFCC library loops over the 18 assigns-clause targets are unwound; the function's own loop is closed by its in-place loop contract",
- "functions": ["lib/ext2fs/undo_io.c:undo_write_tdb"],
- "assumes": ["as undo_write_tdb_aligned, with channel block size 1024 and tdb_data_size 4096 (superblock-sized accesses on a 4k filesystem)"],
- "backend": "cadical", "native": false, "timeout": 300
+{
+ "name": "undo_write_tdb",
+ "defines": [
+  "NO_INLINE_FUNCS",
+  "CFG_BS=1024",
+  "CFG_TDB=2048"
+ ],
+ "props": [
+  "C12"
+ ],
+ "level": "U",
+ "tier": "wip",
+ "harness": "h_write_tdb",
+ "enforce": [
+  "undo_write_tdb"
+ ],
+ "replace": [
+  "undo_setup_tdb",
+  "write_undo_indexes"
+ ],
+ "loop_contracts": true,
+ "unwind": 24,
+ "unwind_reason": "only DFCC library loops over the 18 assigns-clause targets are unwound; the function's own loop is closed by its in-place loop contract (named anchor VERIF_INV_UNDO_WRITE_TDB_LOOP)",
+ "functions": [
+  "lib/ext2fs/undo_io.c:undo_write_tdb"
+ ],
+ "assumes": [
+  "channel block size 1024, tdb_data_size 2048 (undo block larger than the channel block, as mke2fs' 32768/4096 or 32768/1024); ANY filesystem offset in [0, 2^60]",
+  "bit numbering origin UNDO_ORIGIN = offset/tdb (the pinned tree) (specs/undo_spec.h)",
+  "undo file already set up by an earlier call (tdb_written == 1, key block allocated, not full): undo_setup_tdb replaced by a contract that says so",
+  "request byte count in [1, INT_MAX], block <= 2^44",
+  "bits of undo blocks other than t* are arbitrary (over-approximated); crc32c is an uninterpreted function observed by the monitor; host is little-endian",
+  "write_undo_indexes behaves as its contract says (writes the key block, keeps keys_in_block < keys per block on success, reports failure by a non-zero return)",
+  "a short read reports 0 <= actual_size < tdb through the read_error handler as unix_io does",
+  "the exact key description (fsblk*bs + size == end of the saved bytes, crc chain) is demanded when the key block's last key was well formed at the time of the read (size a nonzero multiple of the channel block size i.e. no short read went into it, <= 512 undo blocks, fsblk < 2^48); after a short read only data beyond the original end of the device can follow",
+  "NO_INLINE_FUNCS: ext2fs_get_mem, free, bitmap test/mark are unit stubs; the block buffer is served from a one-slot pool because DFCC forbids malloc/free inside a contracted loop (allocation may fail; on failure the stub stores NULL); memset is the CBMC library model",
+  "larger undo blocks (4096, 32768) are not run: every key access at a symbolic slot costs clauses linear in tdb (27M clauses at 4096, out of memory at 32768); the arithmetic of undo_write_tdb only depends on bs, tdb/bs and offset%tdb",
+  "FAILS on the pinned tree (h_write_tdb.assertion.3 'marked saved', undo_write_tdb.postcondition.2): findings/C12_tdb_unaligned_offset"
+ ],
+ "backend": "cadical",
+ "native": false,
+ "timeout": 600
 }
 */
 /* VERIF-UNIT
-{"name": "undo_write_tdb", "defines": ["NO_INLINE_FUNCS", "CFG_BS=4096", "CFG_TDB=32768"],
- "props": ["C12"], "level": "U", "tier": "wip", "harness": "h_write_tdb",
- "enforce": ["undo_write_tdb"], "replace": ["undo_setup_tdb", "write_undo_indexes"], "loop_contracts": true,
- "unwind": 24, "unwind_reason": "only DFCC library loops over the 18 assigns-clause targets are unwound; the function's own loop is closed by its in-place loop contract",
- "functions": ["lib/ext2fs/undo_io.c:undo_write_tdb"],
- "assumes": ["as undo_write_tdb_aligned but ANY filesystem offset in [0, 2^60] (mke2fs -E offset=N -z)"],
- "backend": "cadical", "native": false, "timeout": 300
+{
+ "name": "undo_write_tdb_fsrel",
+ "defines": [
+  "NO_INLINE_FUNCS",
+  "CFG_BS=1024",
+  "CFG_TDB=2048",
+  "UNDO_ORIGIN_FSREL=1"
+ ],
+ "props": [
+  "C12"
+ ],
+ "level": "U",
+ "tier": "wip",
+ "harness": "h_write_tdb",
+ "enforce": [
+  "undo_write_tdb"
+ ],
+ "replace": [
+  "undo_setup_tdb",
+  "write_undo_indexes"
+ ],
+ "loop_contracts": true,
+ "unwind": 24,
+ "unwind_reason": "only DFCC library loops over the 18 assigns-clause targets are unwound; the function's own loop is closed by its in-place loop contract (named anchor VERIF_INV_UNDO_WRITE_TDB_LOOP)",
+ "functions": [
+  "lib/ext2fs/undo_io.c:undo_write_tdb"
+ ],
+ "assumes": [
+  "channel block size 1024, tdb_data_size 2048 (undo block larger than the channel block); ANY filesystem offset in [0, 2^60]",
+  "bit numbering origin UNDO_ORIGIN = 0 (filesystem-relative numbering, as try_reopen_undo_file and e2undo use it) (specs/undo_spec.h)",
+  "undo file already set up by an earlier call (tdb_written == 1, key block allocated, not full): undo_setup_tdb replaced by a contract that says so",
+  "request byte count in [1, INT_MAX], block <= 2^44",
+  "bits of undo blocks other than t* are arbitrary (over-approximated); crc32c is an uninterpreted function observed by the monitor; host is little-endian",
+  "write_undo_indexes behaves as its contract says (writes the key block, keeps keys_in_block < keys per block on success, reports failure by a non-zero return)",
+  "a short read reports 0 <= actual_size < tdb through the read_error handler as unix_io does",
+  "the exact key description (fsblk*bs + size == end of the saved bytes, crc chain) is demanded when the key block's last key was well formed at the time of the read (size a nonzero multiple of the channel block size i.e. no short read went into it, <= 512 undo blocks, fsblk < 2^48); after a short read only data beyond the original end of the device can follow",
+  "NO_INLINE_FUNCS: ext2fs_get_mem, free, bitmap test/mark are unit stubs; the block buffer is served from a one-slot pool because DFCC forbids malloc/free inside a contracted loop (allocation may fail; on failure the stub stores NULL); memset is the CBMC library model",
+  "larger undo blocks (4096, 32768) are not run: every key access at a symbolic slot costs clauses linear in tdb (27M clauses at 4096, out of memory at 32768); the arithmetic of undo_write_tdb only depends on bs, tdb/bs and offset%tdb",
+  "for the tree with findings/C12_tdb_unaligned_offset/proposed-fix.patch applied (green there; fails on the pinned tree for every offset >= tdb)"
+ ],
+ "backend": "cadical",
+ "native": false,
+ "timeout": 600
 }
 */
 /* VERIF-UNIT
-{"name": "undo_write_tdb_small_tdb", "defines": ["NO_INLINE_FUNCS", "CFG_BS=4096", "CFG_TDB=1024", "ALIGNED_ONLY=1"],
- "props": ["C12"], "level": "U", "tier": "wip", "harness": "h_write_tdb",
- "enforce": ["undo_write_tdb"], "replace": ["undo_setup_tdb", "write_undo_indexes"], "loop_contracts": true,
- "unwind": 24, "unwind_reason": "only DFCC library loops over the 18 assigns-clause targets are unwound; the function's own loop is closed by its in-place loop contract",
- "functions": ["lib/ext2fs/undo_io.c:undo_write_tdb"],
- "assumes": ["as undo_write_tdb_aligned, with channel block size 4096 and tdb_data_size 1024 (undo block smaller than the channel block)"],
- "backend": "cadical", "native": false, "timeout": 300
+{
+ "name": "undo_write_tdb_fsrel_1k_1k",
+ "defines": [
+  "NO_INLINE_FUNCS",
+  "CFG_BS=1024",
+  "CFG_TDB=1024",
+  "UNDO_ORIGIN_FSREL=1"
+ ],
+ "props": [
+  "C12"
+ ],
+ "level": "U",
+ "tier": "wip",
+ "harness": "h_write_tdb",
+ "enforce": [
+  "undo_write_tdb"
+ ],
+ "replace": [
+  "undo_setup_tdb",
+  "write_undo_indexes"
+ ],
+ "loop_contracts": true,
+ "unwind": 24,
+ "unwind_reason": "only DFCC library loops over the 18 assigns-clause targets are unwound; the function's own loop is closed by its in-place loop contract (named anchor VERIF_INV_UNDO_WRITE_TDB_LOOP)",
+ "functions": [
+  "lib/ext2fs/undo_io.c:undo_write_tdb"
+ ],
+ "assumes": [
+  "channel block size 1024, tdb_data_size 1024 (undo block equal to the channel block); ANY filesystem offset in [0, 2^60]",
+  "bit numbering origin UNDO_ORIGIN = 0 (filesystem-relative numbering) (specs/undo_spec.h)",
+  "undo file already set up by an earlier call (tdb_written == 1, key block allocated, not full): undo_setup_tdb replaced by a contract that says so",
+  "request byte count in [1, INT_MAX], block <= 2^44",
+  "bits of undo blocks other than t* are arbitrary (over-approximated); crc32c is an uninterpreted function observed by the monitor; host is little-endian",
+  "write_undo_indexes behaves as its contract says (writes the key block, keeps keys_in_block < keys per block on success, reports failure by a non-zero return)",
+  "a short read reports 0 <= actual_size < tdb through the read_error handler as unix_io does",
+  "the exact key description (fsblk*bs + size == end of the saved bytes, crc chain) is demanded when the key block's last key was well formed at the time of the read (size a nonzero multiple of the channel block size i.e. no short read went into it, <= 512 undo blocks, fsblk < 2^48); after a short read only data beyond the original end of the device can follow",
+  "NO_INLINE_FUNCS: ext2fs_get_mem, free, bitmap test/mark are unit stubs; the block buffer is served from a one-slot pool because DFCC forbids malloc/free inside a contracted loop (allocation may fail; on failure the stub stores NULL); memset is the CBMC library model",
+  "larger undo blocks (4096, 32768) are not run: every key access at a symbolic slot costs clauses linear in tdb (27M clauses at 4096, out of memory at 32768); the arithmetic of undo_write_tdb only depends on bs, tdb/bs and offset%tdb",
+  "for the tree with findings/C12_tdb_unaligned_offset/proposed-fix.patch applied"
+ ],
+ "backend": "cadical",
+ "native": false,
+ "timeout": 600
+}
+*/
+/* VERIF-UNIT
+{
+ "name": "undo_write_tdb_small_tdb",
+ "defines": [
+  "NO_INLINE_FUNCS",
+  "CFG_BS=4096",
+  "CFG_TDB=1024",
+  "ALIGNED_ONLY=1"
+ ],
+ "props": [
+  "C12"
+ ],
+ "level": "U",
+ "tier": "obs",
+ "harness": "h_write_tdb",
+ "enforce": [
+  "undo_write_tdb"
+ ],
+ "replace": [
+  "undo_setup_tdb",
+  "write_undo_indexes"
+ ],
+ "loop_contracts": true,
+ "unwind": 24,
+ "unwind_reason": "only DFCC library loops over the 18 assigns-clause targets are unwound; the function's own loop is closed by its in-place loop contract (named anchor VERIF_INV_UNDO_WRITE_TDB_LOOP)",
+ "functions": [
+  "lib/ext2fs/undo_io.c:undo_write_tdb"
+ ],
+ "assumes": [
+  "channel block size 4096, tdb_data_size 1024 (undo block SMALLER than the channel block: an undo file begun on a 1k filesystem and continued by mke2fs -b 4096); filesystem offset a multiple of tdb_data_size",
+  "bit numbering origin UNDO_ORIGIN = offset/tdb (specs/undo_spec.h)",
+  "undo file already set up by an earlier call (tdb_written == 1, key block allocated, not full): undo_setup_tdb replaced by a contract that says so",
+  "request byte count in [1, INT_MAX], block <= 2^44",
+  "bits of undo blocks other than t* are arbitrary (over-approximated); crc32c is an uninterpreted function observed by the monitor; host is little-endian",
+  "write_undo_indexes behaves as its contract says (writes the key block, keeps keys_in_block < keys per block on success, reports failure by a non-zero return)",
+  "a short read reports 0 <= actual_size < tdb through the read_error handler as unix_io does",
+  "the exact key description (fsblk*bs + size == end of the saved bytes, crc chain) is demanded when the key block's last key was well formed at the time of the read (size a nonzero multiple of the channel block size i.e. no short read went into it, <= 512 undo blocks, fsblk < 2^48); after a short read only data beyond the original end of the device can follow",
+  "NO_INLINE_FUNCS: ext2fs_get_mem, free, bitmap test/mark are unit stubs; the block buffer is served from a one-slot pool because DFCC forbids malloc/free inside a contracted loop (allocation may fail; on failure the stub stores NULL); memset is the CBMC library model",
+  "larger undo blocks (4096, 32768) are not run: every key access at a symbolic slot costs clauses linear in tdb (27M clauses at 4096, out of memory at 32768); the arithmetic of undo_write_tdb only depends on bs, tdb/bs and offset%tdb",
+  "FAILS on the pinned tree: backing_blk_num = offset / channel->block_size truncates, the first tdb bytes of the channel block are captured for each of its undo blocks: findings/C12_chain_blocksize"
+ ],
+ "backend": "cadical",
+ "native": false,
+ "timeout": 600
+}
+*/
+/* VERIF-UNIT
+{
+ "name": "undo_write_tdb_retval",
+ "defines": [
+  "NO_INLINE_FUNCS",
+  "CFG_BS=1024",
+  "CFG_TDB=1024",
+  "ALIGNED_ONLY=1",
+  "OBS_RETVAL=1"
+ ],
+ "props": [
+  "C12"
+ ],
+ "level": "U",
+ "tier": "obs",
+ "harness": "h_write_tdb",
+ "enforce": [
+  "undo_write_tdb"
+ ],
+ "replace": [
+  "undo_setup_tdb",
+  "write_undo_indexes"
+ ],
+ "loop_contracts": true,
+ "unwind": 24,
+ "unwind_reason": "only DFCC library loops over the 18 assigns-clause targets are unwound; the function's own loop is closed by its in-place loop contract (named anchor VERIF_INV_UNDO_WRITE_TDB_LOOP)",
+ "functions": [
+  "lib/ext2fs/undo_io.c:undo_write_tdb"
+ ],
+ "assumes": [
+  "channel block size 1024, tdb_data_size 1024 (as undo_write_tdb_aligned); filesystem offset a multiple of tdb_data_size",
+  "bit numbering origin UNDO_ORIGIN = offset/tdb (specs/undo_spec.h)",
+  "undo file already set up by an earlier call (tdb_written == 1, key block allocated, not full): undo_setup_tdb replaced by a contract that says so",
+  "request byte count in [1, INT_MAX], block <= 2^44",
+  "bits of undo blocks other than t* are arbitrary (over-approximated); crc32c is an uninterpreted function observed by the monitor; host is little-endian",
+  "write_undo_indexes behaves as its contract says (writes the key block, keeps keys_in_block < keys per block on success, reports failure by a non-zero return)",
+  "a short read reports 0 <= actual_size < tdb through the read_error handler as unix_io does",
+  "the exact key description (fsblk*bs + size == end of the saved bytes, crc chain) is demanded when the key block's last key was well formed at the time of the read (size a nonzero multiple of the channel block size i.e. no short read went into it, <= 512 undo blocks, fsblk < 2^48); after a short read only data beyond the original end of the device can follow",
+  "NO_INLINE_FUNCS: ext2fs_get_mem, free, bitmap test/mark are unit stubs; the block buffer is served from a one-slot pool because DFCC forbids malloc/free inside a contracted loop (allocation may fail; on failure the stub stores NULL); memset is the CBMC library model",
+  "larger undo blocks (4096, 32768) are not run: every key access at a symbolic slot costs clauses linear in tdb (27M clauses at 4096, out of memory at 32768); the arithmetic of undo_write_tdb only depends on bs, tdb/bs and offset%tdb",
+  "observation beyond C12: FAILS h_write_tdb 'an error is returned only if a callee failed': the EXT2_ET_SHORT_READ of a zero-length read beyond the end of the device is returned when it was the last block processed"
+ ],
+ "backend": "cadical",
+ "native": false,
+ "timeout": 600
 }
 */
 #include "verif.h"
@@ -164,25 +427,17 @@ unsigned int nondet_uint(void);
 
 static struct struct_io_channel CH, REAL, UFILE;
 static struct undo_private_data DATA;
-/* the key block (tdb bytes): a 16-byte header followed by 16-byte keys.  Declared as an array of keys (slot 0
- * overlays the header) so that CBMC turns key accesses at a symbolic slot into array indexing instead of
- * byte-level updates of a tdb-byte array (which cost a 64-bit comparator per byte and access). */
-static struct undo_key KEYB[CFG_TDB / sizeof(struct undo_key)];
 
 #define DATA_OF(ch) ((struct undo_private_data *)(ch)->private_data)
 #define KPB(d) ((d)->tdb_data_size / 16 - 1)
 #define LASTKEY(d) ((d)->keyb->keys[(d)->keys_in_block - 1])
 
-#ifdef EXP_NOKEY
-#define LASTKEY_DESCRIBES(d, bs) 1
-#else
 /* the index about to be written describes the block that was just appended (see SPEC above) */
 #define LASTKEY_DESCRIBES(d, bs) ((d)->keys_in_block >= 1 && (d)->keys_in_block <= KPB(d) && \
 	M.crcs == 1 && LASTKEY(d).blk_crc == M.crc_out && \
 	LASTKEY(d).fsblk * (unsigned long long)(bs) <= MC.start && \
 	LASTKEY(d).fsblk * (unsigned long long)(bs) + LASTKEY(d).size == MC.start + M.nbytes && \
 	(LASTKEY(d).fsblk * (unsigned long long)(bs) == MC.start ? M.crc_seed == 0xffffffffu : M.crc_seed == M.prev_crc))
-#endif
 
 /* ---- callees of the same file, by contract ---- */
 static errcode_t undo_setup_tdb(struct undo_private_data *data)
@@ -358,13 +613,11 @@ static void build(void)
 	DATA.tdb_data_size = CFG_TDB;
 	DATA.tdb_written = 1;
 	DATA.offset = IN.fs_offset;
-	DATA.keyb = (struct undo_key_block *)KEYB;	/* content arbitrary (DFCC havocs statics) */
+	DATA.keyb = malloc(CFG_TDB);	/* the key block: tdb bytes of arbitrary content */
+	ASSUME(DATA.keyb != 0);
 	DATA.num_keys = IN.num_keys;
 	DATA.keys_in_block = IN.keys_in_block;
 	ASSUME(DATA.keys_in_block < KPB(&DATA));
-#ifdef EXP_KIB0
-	ASSUME(DATA.keys_in_block == 0);
-#endif
 	DATA.undo_blk_num = IN.undo_blk_num;
 	DATA.key_blk_num = IN.key_blk_num;
 	ASSUME(IN.fs_offset >= 0 && IN.fs_offset <= UNDO_MAX_OFFSET);
